@@ -24,6 +24,7 @@ stats! {
     swap_removals,
     insert_after_swap,
     reached_full,
+    prefilled,
     steps_at_full,
     retains,
     retain_removed,
@@ -69,6 +70,7 @@ stats! {
     disjoint_reordered,
     disjoint_overlap_panics,
     disjoint_tuples,
+    disjoint_big,
     overflow_probes,
     overflow_probes_after_removal,
     overflow_entry_points,
@@ -77,6 +79,7 @@ stats! {
     eq_calls,
     eq_near_miss,
     eq_equal_diff_order,
+    eq_equal_big,
     alg_pairs,
     alg_proper_overlap,
     alg_prefix_checks,
